@@ -8,7 +8,7 @@ EXPLANATION = ('Loop summaries of every run loop compared with their specificati
                'iterations with one step each, row k, buffer [n_collect, n_chains, dim] permuted [1,0,2]); NUTSChain::run (row 0 = position at entry, loop 1..n_collect+n_discard, '
                'guard m >= n_discard, row m - n_discard => row r after n_discard + r transitions); NUTS::run (in-place order-preserving map, stack on dim 0). '
                'Step receivers are reached through &mut places without an intervening clone (continuation).')
-FLOORS = {'obligations': 28}   # counted on the reference tree; fewer instantiated obligations is reported, never passed silently
+FLOORS = {'obligations': 81}   # counted on the reference tree; fewer instantiated obligations is reported, never passed silently
 TECHNIQUE = 'loop summaries (trip counts, guards, affine row indices, carried places) + value-flow normal forms'
 STEP = 'core::MarkovChain::step'
 
@@ -83,6 +83,24 @@ def run(ctx):
     nuts_chain_run(ctx, nc, nd)
     nuts_run(ctx, nc, nd)
     constructors(ctx)
+    frames(ctx)
+
+
+def frames(ctx):
+    """what the loop obligations above take for granted: (1) chains_mut is the place self.chains and nothing else, (2) nothing but the
+    anchored transition (and the constructors / seeding API) changes sampler state, so a run starts exactly where the previous one
+    stopped, (3) `x.step()` / `x.run()` on the concrete types resolve to the analysed functions"""
+    from .. import frame
+    from . import C01, C02, C03, C05
+    acc = [b for b in ctx.facts.bodies if b.get('container') == 'trait_impl' and strip_generics(b.get('trait') or '') == 'core::HasChains' and b.get('name') == 'chains_mut']
+    if len(acc) < 2:
+        ctx.unknown('C09.accessor', 'core::HasChains::chains_mut', 'impls', why='only %d implementation(s) of HasChains::chains_mut found (2 on the reference tree)' % len(acc))
+    for b in acc:
+        frame.accessor_pure(ctx, 'C09', b, 'chains')
+    for mod in (C01, C02, C03, C05):
+        got = ctx.borrow(mod.frame_rules, lambda oid: True)
+        if not got:
+            ctx.unknown('C09.frame', mod.__name__.rsplit('.', 1)[-1], 'borrowed', why='frame obligations could not be instantiated')
 
 
 def constructors(ctx):
